@@ -38,7 +38,10 @@ type Node struct {
 	Ptr    bool   // &T{...}
 	Fields []Field
 	Elems  []*Node
-	Str    string
+	// Index: explicit indices of Elems (array / slice literal written with "index: value"
+	// elements); nil when every element is positional
+	Index []int64
+	Str   string
 	Int    int64
 	Bool   bool
 	Func   string  // NFuncRef: method name ; NCall: function name
@@ -95,6 +98,22 @@ func ParsePrefix(prefix []byte) (*Prefix, error) {
 		f = f2
 	}
 	p := &Prefix{Blocks: map[string]*Block{}}
+	// other package-level variables of the prefix (the grammar literal may name them)
+	pkgVars = map[string]ast.Expr{}
+	for _, d := range f.Decls {
+		if gd, ok := d.(*ast.GenDecl); ok && gd.Tok == token.VAR {
+			for _, s := range gd.Specs {
+				vs := s.(*ast.ValueSpec)
+				if len(vs.Names) == len(vs.Values) {
+					for i, nm := range vs.Names {
+						if nm.Name != "g" {
+							pkgVars[nm.Name] = vs.Values[i]
+						}
+					}
+				}
+			}
+		}
+	}
 	ons := map[string]*ast.FuncDecl{}
 	calls := map[string]*ast.FuncDecl{}
 	for _, d := range f.Decls {
@@ -330,7 +349,24 @@ func typeString(e ast.Expr) string {
 	return fmt.Sprintf("?%T", e)
 }
 
+// pkgVars: package-level variables of the prefix being parsed (ParsePrefix is not re-entrant).
+var pkgVars map[string]ast.Expr
+var convDepth int
+
+func constIndex(e ast.Expr) (int64, bool) {
+	n, err := conv(e)
+	if err != nil || n.Kind != NInt {
+		return 0, false
+	}
+	return n.Int, true
+}
+
 func conv(e ast.Expr) (*Node, error) {
+	convDepth++
+	defer func() { convDepth-- }()
+	if convDepth > 200 {
+		return nil, fmt.Errorf("golit: expression too deep (cyclic variable reference?)")
+	}
 	switch x := e.(type) {
 	case *ast.UnaryExpr:
 		if x.Op == token.AND {
@@ -354,24 +390,46 @@ func conv(e ast.Expr) (*Node, error) {
 		}
 	case *ast.CompositeLit:
 		n := &Node{Kind: NComposite, Type: typeString(x.Type)}
+		_, isArray := x.Type.(*ast.ArrayType)
+		next := int64(0)
+		indexed := false
+		var index []int64
 		for _, el := range x.Elts {
 			if kv, ok := el.(*ast.KeyValueExpr); ok {
-				key, ok := kv.Key.(*ast.Ident)
+				key, isIdent := kv.Key.(*ast.Ident)
+				if isIdent && !isArray {
+					v, err := conv(kv.Value)
+					if err != nil {
+						return nil, err
+					}
+					n.Fields = append(n.Fields, Field{key.Name, v})
+					continue
+				}
+				// "index: value" element of an array or slice literal
+				ix, ok := constIndex(kv.Key)
 				if !ok {
-					return nil, fmt.Errorf("golit: non-identifier key")
+					return nil, fmt.Errorf("golit: unsupported key in composite literal")
 				}
 				v, err := conv(kv.Value)
 				if err != nil {
 					return nil, err
 				}
-				n.Fields = append(n.Fields, Field{key.Name, v})
+				n.Elems = append(n.Elems, v)
+				index = append(index, ix)
+				next = ix + 1
+				indexed = true
 			} else {
 				v, err := conv(el)
 				if err != nil {
 					return nil, err
 				}
 				n.Elems = append(n.Elems, v)
+				index = append(index, next)
+				next++
 			}
+		}
+		if indexed {
+			n.Index = index
 		}
 		return n, nil
 	case *ast.BasicLit:
@@ -404,6 +462,10 @@ func conv(e ast.Expr) (*Node, error) {
 			return &Node{Kind: NBool, Bool: false}, nil
 		case "nil":
 			return &Node{Kind: NNil}, nil
+		}
+		if v, ok := pkgVars[x.Name]; ok {
+			// another package-level variable of the emitted prefix: its value
+			return conv(v)
 		}
 	case *ast.SelectorExpr:
 		// (*parser).callonX
